@@ -259,6 +259,9 @@ Section LTSProofs.
   Lemma run_app a b s : run (a ++ b) s = match run a s with Some s' => run b s' | None => None end.
   Proof. revert s. induction a as [|l a IH]; intros s; cbn; auto. destruct (step s l); auto. Qed.
 
+  Lemma run_cons l ls s s1 : step s l = Some s1 -> run (l :: ls) s = run ls s1.
+  Proof. intros H. cbn [Prefetch.run]. rewrite H. reflexivity. Qed.
+
   Definition reachable (s : state) : Prop := exists t0 ls, run ls (init t0) = Some s.
 
   Lemma reachable_step s l s' : reachable s -> step s l = Some s' -> reachable s'.
@@ -591,4 +594,414 @@ Section LTSProofs.
 
   Lemma inv_gh_reachable s : reachable s -> inv_gh s.
   Proof. apply reachable_ind; [apply inv_gh_init|apply inv_gh_step]. Qed.
+
+  (* ---------------------------------------------------------------- the hit path never waits *)
+
+  Lemma hit_respond_step s i h e :
+    nth_error (hits s) i = Some h -> h_pc h = HRespond e ->
+    exists s' h', step s (LHit i) = Some s' /\ nth_error (hits s') i = Some h' /\ h_pc h' = HDone e /\
+                  h_q h' = h_q h.
+  Proof.
+    intros N P. cbn [Prefetch.step]. rewrite N. unfold step_hit. rewrite P.
+    eexists _, _. split; [reflexivity|]. unfold set_hit. cbn [hits].
+    rewrite (nth_upd_same _ _ _ _ N). auto.
+  Qed.
+
+  Lemma hit_reserve_step s i h e :
+    nth_error (hits s) i = Some h -> h_pc h = HReserve e ->
+    exists s' h', step s (LHit i) = Some s' /\ nth_error (hits s') i = Some h' /\ h_pc h' = HRespond e /\
+                  h_q h' = h_q h.
+  Proof.
+    intros N P. cbn [Prefetch.step]. rewrite N. unfold step_hit, reserve. rewrite P.
+    destruct (key_mem _ _); eexists _, _; (split; [reflexivity|]); unfold set_hit; cbn [hits];
+      rewrite (nth_upd_same _ _ _ _ N); auto.
+  Qed.
+
+  Lemma hit_window_step s i h e :
+    nth_error (hits s) i = Some h -> h_pc h = HWindow e ->
+    exists s' h', step s (LHit i) = Some s' /\ nth_error (hits s') i = Some h' /\
+                  (h_pc h' = HReserve e \/ h_pc h' = HRespond e) /\ h_q h' = h_q h.
+  Proof.
+    intros N P. cbn [Prefetch.step]. rewrite N. unfold step_hit. rewrite P.
+    destruct (need_prefetch _ _ _); eexists _, _; (split; [reflexivity|]); unfold set_hit; cbn [hits];
+      rewrite (nth_upd_same _ _ _ _ N); auto.
+  Qed.
+
+  (* From every state (reachable or not) in which hit thread i holds a looked-up entry e, the thread
+     reaches "responded with e" in at most three steps, all of them its own: the schedule consists of
+     LHit i only, no refresh step and no environment step is needed. *)
+  Theorem hit_nonblocking s i h e :
+    nth_error (hits s) i = Some h ->
+    (h_pc h = HWindow e \/ h_pc h = HReserve e \/ h_pc h = HRespond e) ->
+    exists n s' h', (n <= 3)%nat /\ run (repeat (LHit i) n) s = Some s' /\
+                    nth_error (hits s') i = Some h' /\ h_pc h' = HDone e /\ h_q h' = h_q h.
+  Proof.
+    assert (R1 : forall s h, nth_error (hits s) i = Some h -> h_pc h = HRespond e ->
+               exists s' h', run (repeat (LHit i) 1) s = Some s' /\ nth_error (hits s') i = Some h' /\
+                             h_pc h' = HDone e /\ h_q h' = h_q h).
+    { intros s0 h0 N P. destruct (hit_respond_step _ _ _ _ N P) as [s1 [h1 [S1 [N1 [P1 Q1]]]]].
+      exists s1, h1. cbn [repeat]. rewrite (run_cons _ _ _ _ S1). cbn [Prefetch.run]. auto. }
+    assert (R2 : forall s h, nth_error (hits s) i = Some h -> h_pc h = HReserve e ->
+               exists s' h', run (repeat (LHit i) 2) s = Some s' /\ nth_error (hits s') i = Some h' /\
+                             h_pc h' = HDone e /\ h_q h' = h_q h).
+    { intros s0 h0 N P. destruct (hit_reserve_step _ _ _ _ N P) as [s1 [h1 [S1 [N1 [P1 Q1]]]]].
+      destruct (R1 _ _ N1 P1) as [s2 [h2 [S2 [N2 [P2 Q2]]]]].
+      exists s2, h2. cbn [repeat]. rewrite (run_cons _ _ _ _ S1). cbn [repeat] in S2. rewrite S2.
+      repeat split; auto. congruence. }
+    intros N [P|[P|P]].
+    - destruct (hit_window_step _ _ _ _ N P) as [s1 [h1 [S1 [N1 [[P1|P1] Q1]]]]].
+      + destruct (R2 _ _ N1 P1) as [s2 [h2 [S2 [N2 [P2 Q2]]]]].
+        exists 3%nat, s2, h2. split; [lia|]. cbn [repeat]. rewrite (run_cons _ _ _ _ S1).
+        cbn [repeat] in S2. rewrite S2. repeat split; auto. congruence.
+      + destruct (R1 _ _ N1 P1) as [s2 [h2 [S2 [N2 [P2 Q2]]]]].
+        exists 2%nat, s2, h2. split; [lia|]. cbn [repeat]. rewrite (run_cons _ _ _ _ S1).
+        cbn [repeat] in S2. rewrite S2. repeat split; auto. congruence.
+    - destruct (R2 _ _ N P) as [s2 [h2 [S2 R]]]. exists 2%nat, s2, h2. split; [lia|]. auto.
+    - destruct (R1 _ _ N P) as [s2 [h2 [S2 R]]]. exists 1%nat, s2, h2. split; [lia|]. auto.
+  Qed.
+
+  (* no guard of a hit-thread action mentions another thread: the next action is always enabled *)
+  Theorem hit_never_blocked s i h :
+    nth_error (hits s) i = Some h ->
+    (forall e, h_pc h <> HDone e) -> h_pc h <> HMiss -> exists s', step s (LHit i) = Some s'.
+  Proof.
+    intros N D M. destruct (h_pc h) eqn:P; try congruence.
+    - cbn [Prefetch.step]. rewrite N. unfold step_hit. rewrite P. destruct (lookup _ _); eauto.
+    - destruct (hit_window_step _ _ _ _ N P) as [s' [? [S _]]]. eauto.
+    - destruct (hit_reserve_step _ _ _ _ N P) as [s' [? [S _]]]. eauto.
+    - destruct (hit_respond_step _ _ _ _ N P) as [s' [? [S _]]]. eauto.
+  Qed.
+
+  (* the entry a hit thread carries is the one the cache held at its lookup *)
+  Theorem hit_lookup_step s i h s' :
+    nth_error (hits s) i = Some h -> h_pc h = HLookup -> step s (LHit i) = Some s' ->
+    exists h', nth_error (hits s') i = Some h' /\ h_q h' = h_q h /\
+      match lookup (h_q h) (cache s) with
+      | Some e => h_pc h' = HWindow e
+      | None => h_pc h' = HMiss
+      end.
+  Proof.
+    intros N P. cbn [Prefetch.step]. rewrite N. unfold step_hit. rewrite P.
+    destruct (lookup _ _); intros H; inversion H; subst; unfold set_hit; cbn [hits];
+      rewrite (nth_upd_same _ _ _ _ N); eauto.
+  Qed.
+
+  (* ---------------------------------------------------------------- window *)
+
+  Theorem window_step s i h e s' :
+    nth_error (hits s) i = Some h -> h_pc h = HWindow e -> step s (LHit i) = Some s' ->
+    exists h', nth_error (hits s') i = Some h' /\ h_tw h' = now s /\
+      refs s' = refs s /\ inflight s' = inflight s /\ cache s' = cache s /\
+      ((need_prefetch (e_stored e) (e_expire e) (now s) = true /\ h_pc h' = HReserve e) \/
+       (need_prefetch (e_stored e) (e_expire e) (now s) = false /\ h_pc h' = HRespond e /\ h_att h' = None)).
+  Proof.
+    intros N P. cbn [Prefetch.step]. rewrite N. unfold step_hit. rewrite P.
+    destruct (need_prefetch _ _ _) eqn:Nd; intros H; inversion H; subst; unfold set_hit; cbn;
+      rewrite (nth_upd_same _ _ _ _ N); eexists; (split; [reflexivity|]); cbn; repeat split; auto.
+  Qed.
+
+  (* the reserve attempt: refused iff the key is in flight; otherwise exactly one new refresh thread *)
+  Theorem reserve_step s i h e s' :
+    nth_error (hits s) i = Some h -> h_pc h = HReserve e -> step s (LHit i) = Some s' ->
+    cache s' = cache s /\
+    ((In (hash (h_q h)) (inflight s) /\ refs s' = refs s /\ inflight s' = inflight s) \/
+     (~ In (hash (h_q h)) (inflight s) /\
+      refs s' = refs s ++ [mkRef (h_q h) (hash (h_q h)) i RSend None] /\
+      inflight s' = hash (h_q h) :: inflight s)).
+  Proof.
+    intros N P. cbn [Prefetch.step]. rewrite N. unfold step_hit, reserve. rewrite P.
+    destruct (key_mem _ _) eqn:K; intros H; inversion H; subst; cbn; (split; [reflexivity|]).
+    - left. apply key_mem_In in K. auto.
+    - right. split; auto. intros I. apply key_mem_In in I. congruence.
+  Qed.
+
+  (* only the reserve action of a hit thread creates refresh threads *)
+  Theorem refs_grow_only_by_reserve s l s' :
+    step s l = Some s' -> length (refs s') <> length (refs s) ->
+    exists i h e, l = LHit i /\ nth_error (hits s) i = Some h /\ h_pc h = HReserve e.
+  Proof.
+    intros H L. open_step H; cbn [refs] in L; try congruence.
+    - inversion H; subst; cbn [refs set_hit] in L; try congruence. eauto 6.
+    - inversion H; subst; cbn [refs] in L; rewrite upd_length in L; congruence.
+    - inversion H; subst; cbn [refs set_ref] in L; rewrite upd_length in L; congruence.
+  Qed.
+
+  Theorem window_global s :
+    reachable s ->
+    (forall i h e, nth_error (hits s) i = Some h -> (h_pc h = HRespond e \/ h_pc h = HDone e) ->
+        (h_att h <> None <-> need_prefetch (e_stored e) (e_expire e) (h_tw h) = true)) /\
+    (forall j r, nth_error (refs s) j = Some r ->
+        r_key r = hash (r_q r) /\
+        exists h e, nth_error (hits s) (r_by r) = Some h /\ h_q h = r_q r /\ h_att h = Some true /\
+                    (h_pc h = HRespond e \/ h_pc h = HDone e) /\
+                    need_prefetch (e_stored e) (e_expire e) (h_tw h) = true) /\
+    (forall i h, nth_error (hits s) i = Some h -> h_att h = Some true ->
+        exists j r, nth_error (refs s) j = Some r /\ r_by r = i).
+  Proof.
+    intros R. destruct (inv_gh_reachable s R) as [IH [IR IS]]. split; [|split].
+    - intros i h e N P. pose proof (IH _ _ N) as OK. unfold hit_ok in OK.
+      destruct P as [P|P]; rewrite P in OK; exact OK.
+    - intros j r N. destruct (IR _ _ N) as [K [[h [Nh [Q [A [e [P Nd]]]]]] _]].
+      split; [exact K|]. exists h, e. auto.
+    - exact IS.
+  Qed.
+
+  (* a fortiori per (question, group): the key is a function of them.  Two different questions whose
+     hashes collide share one flight (fewer refreshes, never more). *)
+  Theorem single_flight_question s j1 j2 r1 r2 :
+    reachable s ->
+    nth_error (refs s) j1 = Some r1 -> nth_error (refs s) j2 = Some r2 ->
+    r_pc r1 <> RFin -> r_pc r2 <> RFin -> r_q r1 = r_q r2 -> j1 = j2.
+  Proof.
+    intros R N1 N2 A1 A2 Q. eapply single_flight; eauto.
+    destruct (window_global s R) as [_ [W _]].
+    destruct (W _ _ N1) as [K1 _]. destruct (W _ _ N2) as [K2 _]. congruence.
+  Qed.
+
+  (* ---------------------------------------------------------------- effect of a refresh on the cache *)
+
+  Theorem refresh_store_step s j r v ttl neg s' :
+    nth_error (refs s) j = Some r -> r_pc r = RStore v ttl neg -> step s (LRef j) = Some s' ->
+    cache s' = cache_store (r_q r) (mkEntry (now s) (now s + ttl) v neg) (cache s) /\
+    (neg = false -> lookup (r_q r) (cache s') = Some (mkEntry (now s) (now s + ttl) v false)) /\
+    (neg = true -> forall e0, lookup (r_q r) (cache s) = Some e0 -> cache s' = cache s) /\
+    (neg = true -> lookup (r_q r) (cache s) = None ->
+                   lookup (r_q r) (cache s') = Some (mkEntry (now s) (now s + ttl) v true)) /\
+    (forall q', q' <> r_q r -> lookup q' (cache s') = lookup q' (cache s)) /\
+    inflight s' = inflight s /\
+    exists r', nth_error (refs s') j = Some r' /\ r_pc r' = RRelease /\ r_key r' = r_key r.
+  Proof.
+    intros N P. cbn [Prefetch.step]. rewrite N. unfold step_ref. rewrite P.
+    intros H. inversion H; subst; clear H. cbn [cache inflight refs].
+    split; [reflexivity|]. split; [|split; [|split; [|split; [|split]]]].
+    - intros ->. apply store_positive. reflexivity.
+    - intros -> e0 L. eapply store_negative_present; eauto.
+    - intros -> L. apply store_negative_absent; auto.
+    - intros q' Nq. apply store_other. exact Nq.
+    - reflexivity.
+    - rewrite (nth_upd_same _ _ _ _ N). eauto.
+  Qed.
+
+  (* a hit arriving after the store finds the stored entry *)
+  Theorem later_hit_sees s i h e :
+    nth_error (hits s) i = Some h -> h_pc h = HLookup -> lookup (h_q h) (cache s) = Some e ->
+    exists s' h', step s (LHit i) = Some s' /\ nth_error (hits s') i = Some h' /\ h_pc h' = HWindow e.
+  Proof.
+    intros N P L. cbn [Prefetch.step]. rewrite N. unfold step_hit. rewrite P, L.
+    eexists _, _. split; [reflexivity|]. unfold set_hit. cbn [hits]. rewrite (nth_upd_same _ _ _ _ N). auto.
+  Qed.
+
+  (* which labels may touch the cache at all *)
+  Definition stores_or_evicts (s : state) (l : label) : bool :=
+    match l with
+    | LEvict _ | LEnvStore _ _ _ _ => true
+    | LRef j => match nth_error (refs s) j with
+                | Some r => match r_pc r with RStore _ _ _ => true | _ => false end
+                | None => false
+                end
+    | _ => false
+    end.
+
+  Theorem cache_frame s l s' :
+    step s l = Some s' -> stores_or_evicts s l = false -> (forall q, l <> LExpire q) -> cache s' = cache s.
+  Proof.
+    intros H F X. open_step H; cbn [cache]; auto; try discriminate.
+    - inversion H; subst; reflexivity.
+    - cbn in F. rewrite Heqo in F. inversion H; subst; cbn [cache]; auto. rewrite H0 in F. discriminate.
+    - inversion H; subst; reflexivity.
+    - exfalso. eapply X. reflexivity.
+  Qed.
+
+  (* an entry stays usable until it expires: short of capacity eviction or a store, only the expiry
+     step removes it, and that step is enabled only once now >= expire *)
+  Theorem entry_survives s l s' q e :
+    step s l = Some s' -> stores_or_evicts s l = false ->
+    lookup q (cache s) = Some e -> now s < e_expire e -> lookup q (cache s') = Some e.
+  Proof.
+    intros H F L T. destruct (match l with LExpire _ => true | _ => false end) eqn:X.
+    - destruct l; try discriminate. cbn [Prefetch.step] in H.
+      destruct (lookup q0 (cache s)) as [e0|] eqn:L0; [|discriminate].
+      destruct (e_expire e0 <=? now s) eqn:D; [|discriminate]. inversion H; subst. cbn [cache].
+      destruct (N.eq_dec q q0) as [->|Nq].
+      + rewrite L in L0. inversion L0; subst. apply Z.leb_le in D. lia.
+      + rewrite lookup_remove_other; auto.
+    - rewrite (cache_frame s l s' H F); auto. intros q0 ->. discriminate.
+  Qed.
+
+  (* a failed refresh never stores: none of its steps changes the cache *)
+  Theorem failed_refresh_stores_nothing s j r l s' :
+    reachable s -> nth_error (refs s) j = Some r -> r_out r = Some OFail ->
+    (l = LRef j \/ exists o, l = LUp j o) -> step s l = Some s' -> cache s' = cache s.
+  Proof.
+    intros R N O Hl H. destruct (inv_gh_reachable s R) as [_ [IR _]].
+    destruct (IR _ _ N) as [_ [_ [_ F]]]. specialize (F O).
+    destruct Hl as [->|[o ->]]; cbn [Prefetch.step] in H; rewrite N in H.
+    - unfold step_ref in H. destruct F as [F|F]; rewrite F in H; inversion H; subst; reflexivity.
+    - unfold step_up in H. destruct F as [F|F]; rewrite F in H; discriminate.
+  Qed.
+
+  Theorem upstream_failure_step s j r s' :
+    nth_error (refs s) j = Some r -> step s (LUp j OFail) = Some s' ->
+    cache s' = cache s /\ inflight s' = inflight s /\
+    exists r', nth_error (refs s') j = Some r' /\ r_pc r' = RRelease /\ r_out r' = Some OFail /\
+               r_key r' = r_key r.
+  Proof.
+    intros N. cbn [Prefetch.step]. rewrite N. unfold step_up. destruct (r_pc r); try discriminate.
+    intros H. inversion H; subst. unfold set_ref. cbn. rewrite (nth_upd_same _ _ _ _ N). eauto 7.
+  Qed.
+
+  (* ---------------------------------------------------------------- done always runs *)
+
+  Definition rmeasure (p : rpc) : nat :=
+    match p with RSend => 4 | RWait => 3 | RStore _ _ _ => 2 | RRelease => 1 | RFin => 0 end%nat.
+
+  (* the next action of a refresh thread is always enabled (for RWait: whatever the upstream returns) *)
+  Theorem refresh_progress s j r :
+    nth_error (refs s) j = Some r ->
+    match r_pc r with
+    | RFin => True
+    | RWait => forall o, exists s', step s (LUp j o) = Some s'
+    | _ => exists s', step s (LRef j) = Some s'
+    end.
+  Proof.
+    intros N. destruct (r_pc r) eqn:P; auto; try intros o; cbn [Prefetch.step]; rewrite N;
+      unfold step_ref, step_up; rewrite P; try destruct o; eauto.
+  Qed.
+
+  Theorem refresh_own_step_decreases s l s' j r :
+    nth_error (refs s) j = Some r -> (l = LRef j \/ exists o, l = LUp j o) -> step s l = Some s' ->
+    exists r', nth_error (refs s') j = Some r' /\ (rmeasure (r_pc r') < rmeasure (r_pc r))%nat /\
+               r_key r' = r_key r /\ r_q r' = r_q r.
+  Proof.
+    intros N [->|[o ->]] H; cbn [Prefetch.step] in H; rewrite N in H.
+    - apply step_ref_inv in H. inversion H; subst; cbn [refs]; rewrite (nth_upd_same _ _ _ _ N);
+        eexists; (split; [reflexivity|]); rewrite H0; cbn; auto.
+    - apply step_up_inv in H. inversion H; subst; unfold set_ref; cbn [refs];
+        rewrite (nth_upd_same _ _ _ _ N); eexists; (split; [reflexivity|]); rewrite H0; cbn; auto.
+  Qed.
+
+  Theorem refresh_other_step_keeps s l s' j1 r1 :
+    nth_error (refs s) j1 = Some r1 -> l <> LRef j1 -> (forall o, l <> LUp j1 o) -> step s l = Some s' ->
+    nth_error (refs s') j1 = Some r1.
+  Proof.
+    intros N N1 N2 H. open_step H; cbn [refs]; auto.
+    - inversion H; subst; unfold set_hit; cbn [refs]; auto. apply nth_app_keep. exact N.
+    - assert (j <> j1) by congruence.
+      inversion H; subst; cbn [refs]; rewrite nth_upd_other; auto.
+    - assert (j <> j1) by (intros ->; eapply N2; reflexivity).
+      inversion H; subst; unfold set_ref; cbn [refs]; rewrite nth_upd_other; auto.
+  Qed.
+
+  Ltac solve_forall :=
+    repeat (apply Forall_cons; [first [left; reflexivity | right; reflexivity]|]); apply Forall_nil.
+
+  Lemma done_from_release s j r :
+    nth_error (refs s) j = Some r -> r_pc r = RRelease ->
+    exists s' r', run [LRef j] s = Some s' /\ nth_error (refs s') j = Some r' /\ r_pc r' = RFin /\
+                  r_key r' = r_key r /\ ~ In (r_key r) (inflight s').
+  Proof.
+    intros N P. cbn [Prefetch.run Prefetch.step]. rewrite N. unfold step_ref. rewrite P.
+    eexists _, _. split; [reflexivity|]. cbn [refs inflight]. rewrite (nth_upd_same _ _ _ _ N).
+    split; [reflexivity|]. split; [reflexivity|]. split; [reflexivity|]. apply not_In_remove.
+  Qed.
+
+  Lemma done_from_store s j r v ttl neg :
+    nth_error (refs s) j = Some r -> r_pc r = RStore v ttl neg ->
+    exists s' r', run [LRef j; LRef j] s = Some s' /\ nth_error (refs s') j = Some r' /\ r_pc r' = RFin /\
+                  r_key r' = r_key r /\ ~ In (r_key r) (inflight s').
+  Proof.
+    intros N P.
+    destruct (step s (LRef j)) as [s1|] eqn:S1.
+    2: { exfalso. cbn [Prefetch.step] in S1. rewrite N in S1. unfold step_ref in S1. rewrite P in S1.
+         discriminate. }
+    destruct (refresh_store_step s j r v ttl neg s1 N P S1) as [_ [_ [_ [_ [_ [_ [r1 [N1 [P1 K1]]]]]]]]].
+    destruct (done_from_release _ _ _ N1 P1) as [s2 [r2 [S2 [N2 [P2 [K2 I2]]]]]].
+    exists s2, r2. rewrite (run_cons _ _ _ _ S1). rewrite S2. rewrite <- K1. repeat split; auto; try congruence.
+  Qed.
+
+  Lemma done_from_wait s j r o :
+    nth_error (refs s) j = Some r -> r_pc r = RWait ->
+    exists ls s' r', (length ls <= 3)%nat /\ Forall (fun l => l = LRef j \/ l = LUp j o) ls /\
+                  run ls s = Some s' /\ nth_error (refs s') j = Some r' /\ r_pc r' = RFin /\
+                  r_key r' = r_key r /\ ~ In (r_key r) (inflight s').
+  Proof.
+    intros N P. destruct o as [|v ttl neg].
+    - assert (S1 : step s (LUp j OFail) =
+                   Some (set_ref s j (mkRef (r_q r) (r_key r) (r_by r) RRelease (Some OFail)))).
+      { cbn [Prefetch.step]. rewrite N. unfold step_up. rewrite P. reflexivity. }
+      destruct (upstream_failure_step _ _ _ _ N S1) as [_ [_ [r1 [N1 [P1 [_ K1]]]]]].
+      destruct (done_from_release _ _ _ N1 P1) as [s2 [r2 [S2 [N2 [P2 [K2 I2]]]]]].
+      exists [LUp j OFail; LRef j], s2, r2. split; [cbn; lia|]. split; [solve_forall|].
+      rewrite (run_cons _ _ _ _ S1). rewrite S2. rewrite <- K1. repeat split; auto; try congruence.
+    - set (r1 := mkRef (r_q r) (r_key r) (r_by r) (RStore v ttl neg) (Some (OOk v ttl neg))).
+      assert (S1 : step s (LUp j (OOk v ttl neg)) = Some (set_ref s j r1)).
+      { cbn [Prefetch.step]. rewrite N. unfold step_up. rewrite P. reflexivity. }
+      assert (N1 : nth_error (refs (set_ref s j r1)) j = Some r1).
+      { unfold set_ref. cbn [refs]. apply (nth_upd_same _ _ _ _ N). }
+      destruct (done_from_store _ _ _ v ttl neg N1 eq_refl) as [s2 [r2 [S2 [N2 [P2 [K2 I2]]]]]].
+      exists [LUp j (OOk v ttl neg); LRef j; LRef j], s2, r2. split; [cbn; lia|].
+      split; [solve_forall|].
+      rewrite (run_cons _ _ _ _ S1). rewrite S2. repeat split; auto.
+  Qed.
+
+  (* Whatever the upstream does (answer o, after any delay), a refresh thread that has started can run
+     to done(key) by its own steps plus the one environment step "the exchange returns"; at the end its
+     key is no longer in the in-flight set.  Together with refresh_progress (never stuck),
+     refresh_own_step_decreases (every own step makes progress) and refresh_other_step_keeps (nobody
+     else can move it) this is "done is reached on every path" under weak fairness and C14 (the
+     exchange returns by its deadline). *)
+  Theorem done_reached s j r o :
+    nth_error (refs s) j = Some r -> r_pc r <> RFin ->
+    exists ls s' r', (length ls <= 4)%nat /\ Forall (fun l => l = LRef j \/ l = LUp j o) ls /\
+                  run ls s = Some s' /\ nth_error (refs s') j = Some r' /\ r_pc r' = RFin /\
+                  ~ In (r_key r) (inflight s').
+  Proof.
+    intros N A. destruct (r_pc r) eqn:P; try congruence.
+    - (* RSend *)
+      set (r1 := mkRef (r_q r) (r_key r) (r_by r) RWait (r_out r)).
+      assert (S1 : exists s1, step s (LRef j) = Some s1 /\ nth_error (refs s1) j = Some r1).
+      { cbn [Prefetch.step]. rewrite N. unfold step_ref. rewrite P. eexists. split; [reflexivity|].
+        cbn [refs]. apply (nth_upd_same _ _ _ _ N). }
+      destruct S1 as [s1 [S1 N1]].
+      destruct (done_from_wait s1 j r1 o N1 eq_refl) as [ls [s2 [r2 [L [F [S2 [N2 [P2 [K2 I2]]]]]]]]].
+      exists (LRef j :: ls), s2, r2. split; [cbn; lia|]. split; [apply Forall_cons; [left; reflexivity|exact F]|].
+      rewrite (run_cons _ _ _ _ S1). auto.
+    - destruct (done_from_wait s j r o N P) as [ls [s2 [r2 [L [F [S2 [N2 [P2 [K2 I2]]]]]]]]].
+      exists ls, s2, r2. split; [lia|]. auto.
+    - destruct (done_from_store s j r val ttl neg N P) as [s2 [r2 [S2 [N2 [P2 [K2 I2]]]]]].
+      exists [LRef j; LRef j], s2, r2. split; [cbn; lia|]. split; [solve_forall|]. auto.
+    - destruct (done_from_release s j r N P) as [s2 [r2 [S2 [N2 [P2 [K2 I2]]]]]].
+      exists [LRef j], s2, r2. split; [cbn; lia|]. split; [solve_forall|]. auto.
+  Qed.
+
+  (* once released, the next hit in the window reserves again *)
+  Theorem reserve_after_release s i h e s' :
+    nth_error (hits s) i = Some h -> h_pc h = HReserve e -> ~ In (hash (h_q h)) (inflight s) ->
+    step s (LHit i) = Some s' ->
+    refs s' = refs s ++ [mkRef (h_q h) (hash (h_q h)) i RSend None].
+  Proof.
+    intros N P I H. destruct (reserve_step _ _ _ _ _ N P H) as [_ [[I' _]|[_ [R _]]]]; [contradiction|exact R].
+  Qed.
+
+  (* ---------------------------------------------------------------- big-step = one schedule of the small-step system *)
+
+  Lemma run_lenient_taken ls s : run (taken hash ls s) s = Some (run_lenient hash ls s).
+  Proof.
+    revert s. induction ls as [|l ls IH]; intros s; cbn; auto.
+    destruct (Prefetch.step hash s l) eqn:E; cbn; [rewrite E|]; apply IH.
+  Qed.
+
+  Theorem big_step_refines_small s e : exists ls, run ls s = Some (big_step hash s e).
+  Proof. exists (taken hash (ev_labels s e) s). apply run_lenient_taken. Qed.
+
+  Theorem big_refines_small es s : exists ls, run ls s = Some (big hash es s).
+  Proof.
+    revert s. induction es as [|e es IH]; intros s; cbn.
+    - exists []. reflexivity.
+    - destruct (big_step_refines_small s e) as [l1 H1]. destruct (IH (big_step hash s e)) as [l2 H2].
+      exists (l1 ++ l2). rewrite run_app, H1. exact H2.
+  Qed.
+
+  Theorem big_reachable es t0 : reachable (big hash es (init t0)).
+  Proof. destruct (big_refines_small es (init t0)) as [ls H]. exists t0, ls. exact H. Qed.
 End LTSProofs.
